@@ -493,6 +493,98 @@ theorem lr_basis_changes_telescope {G : Type} [Group G] (W : G) (Bs : List G) :
     (W⁻¹ :: lrBasisSeq W Bs).prod = 1 := by
   rw [List.prod_cons, lrBasisSeq_prod, inv_mul_cancel]
 
+/-- Commuting case of the linear swap network steps: for a diagonal hopping matrix (`T_pq = 0` for `p ≠ q`) every
+generator emitted with a non-zero coefficient is a density–density term `n_p n_q` (kind 2) or a number operator
+(kind 3) — all diagonal in the occupation basis, hence pairwise commuting: the hypothesis of
+`exact_when_commuting` holds for these Hamiltonians, for every number of modes. -/
+theorem lsn_commuting_case (n : Nat) (Tre Tim V : Nat → Nat → Rat)
+    (hT : ∀ p q, p ≠ q → Tre p q = 0) (hI : ∀ p q, p ≠ q → Tim p q = 0) :
+    (∀ e ∈ lsnAsymStep n Tre Tim V, e.2.2.2.2 ≠ 0 → e.1 = 2 ∨ e.1 = 3) ∧
+    (∀ e ∈ lsnSymStep n Tre Tim V, e.2.2.2.2 ≠ 0 → e.1 = 2 ∨ e.1 = 3) := by
+  constructor
+  · intro e he hne
+    unfold lsnAsymStep at he
+    simp only [List.mem_append, List.mem_flatMap, List.mem_map, List.mem_range] at he
+    rcases he with ⟨c, hc, hce⟩ | ⟨i, _, rfl⟩
+    · have hlt := swapNetwork_call_ascending n false c hc
+      have hpq : c.1 ≠ c.2.1 := by omega
+      simp only [List.mem_cons, List.not_mem_nil, or_false] at hce
+      rcases hce with rfl | rfl | rfl
+      · exact absurd (hT _ _ hpq) hne
+      · exact absurd (hI _ _ hpq) hne
+      · left; rfl
+    · right; rfl
+  · intro e he hne
+    unfold lsnSymStep at he
+    simp only [List.mem_append, List.mem_flatMap, List.mem_map, List.mem_range] at he
+    rcases he with (⟨c, hc, hce⟩ | ⟨i, _, rfl⟩) | ⟨c, hc, hce⟩
+    · have hlt := swapNetwork_call_ascending n false c hc
+      have hpq : c.1 ≠ c.2.1 := by omega
+      simp only [List.mem_cons, List.not_mem_nil, or_false] at hce
+      rcases hce with rfl | rfl | rfl
+      · exact absurd (by simp [hT _ _ hpq]) hne
+      · exact absurd (by simp [hI _ _ hpq]) hne
+      · left; rfl
+    · right; rfl
+    · have hlt := swapNetwork_call_ascending n true c hc
+      have hpq : c.1 ≠ c.2.1 := by omega
+      simp only [List.mem_cons, List.not_mem_nil, or_false] at hce
+      rcases hce with rfl | rfl | rfl
+      · left; rfl
+      · exact absurd (by simp [hI _ _ hpq]) hne
+      · exact absurd (by simp [hT _ _ hpq]) hne
+/-- Closed form of EVERY leaf time: the `i`-th `trotter_step` call of a step of any order gets the time `leafTime`,
+read off the base-5 digits of `i` (digit 2 = the middle sub-step with factor `1 − 4 r_j`, any other digit a side
+sub-step with factor `r_j`; most significant digit = outermost recursion level). -/
+theorem leaf_time_closed_form (perm : List Nat → List Nat) (r : Nat → Rat) :
+    ∀ k q t i, i < leafCount k → ((performStep perm r k q t).map (·.time))[i]? = some (leafTime r k t i)
+  | 0, q, t, i, hi => by
+    have : i = 0 := by simp [leafCount] at hi; omega
+    subst this; simp [performStep, leafTime]
+  | 1, q, t, i, hi => by
+    have : i = 0 := by simp [leafCount] at hi; omega
+    subst this; simp [performStep, leafTime]
+  | k + 2, q, t, i, hi => by
+    have ih := leaf_time_closed_form perm r (k + 1)
+    have hL := leafCount_pos (k + 1)
+    have len : ∀ q' t', ((performStep perm r (k + 1) q' t').map (·.time)).length = leafCount (k + 1) := by
+      intro q' t'; rw [List.length_map, performStep_length]
+    simp only [leafCount] at hi
+    simp only [performStep, List.map_append, leafTime]
+    generalize hLd : leafCount (k + 1) = L at *
+    by_cases c0 : i < L
+    · obtain ⟨d, m⟩ := block_index L 0 i (by omega) (by omega)
+      rw [d, m, if_neg (by omega)]
+      rw [List.getElem?_append_left (by simp [len]; omega), List.getElem?_append_left (by simp [len]; omega),
+        List.getElem?_append_left (by simp [len]; omega), List.getElem?_append_left (by rw [len]; omega)]
+      simpa using ih q _ i (by omega)
+    · by_cases c1 : i < 2 * L
+      · obtain ⟨d, m⟩ := block_index L 1 i (by omega) (by omega)
+        rw [d, m, if_neg (by omega)]
+        rw [List.getElem?_append_left (by simp [len]; omega), List.getElem?_append_left (by simp [len]; omega),
+          List.getElem?_append_left (by simp [len]; omega), List.getElem?_append_right (by rw [len]; omega), len]
+        simpa using ih _ _ (i - L) (by omega)
+      · by_cases c2 : i < 3 * L
+        · obtain ⟨d, m⟩ := block_index L 2 i (by omega) (by omega)
+          rw [d, m, if_pos rfl]
+          rw [List.getElem?_append_left (by simp [len]; omega), List.getElem?_append_left (by simp [len]; omega),
+            List.getElem?_append_right (by simp [len]; omega)]
+          simp only [List.length_append, len]
+          rw [show i - (L + L) = i - 2 * L by omega]
+          exact ih (perm (perm q)) (t - 4 * (t * r (k + 2))) (i - 2 * L) (by omega)
+        · by_cases c3 : i < 4 * L
+          · obtain ⟨d, m⟩ := block_index L 3 i (by omega) (by omega)
+            rw [d, m, if_neg (by omega)]
+            rw [List.getElem?_append_left (by simp [len]; omega), List.getElem?_append_right (by simp [len]; omega)]
+            simp only [List.length_append, len]
+            rw [show i - (L + L + L) = i - 3 * L by omega]
+            exact ih (perm (perm (perm q))) (t * r (k + 2)) (i - 3 * L) (by omega)
+          · obtain ⟨d, m⟩ := block_index L 4 i (by omega) (by omega)
+            rw [d, m, if_neg (by omega)]
+            rw [List.getElem?_append_right (by simp [len]; omega)]
+            simp only [List.length_append, len]
+            rw [show i - (L + L + L + L) = i - 4 * L by omega]
+            exact ih (perm (perm (perm (perm q)))) (t * r (k + 2)) (i - 4 * L) (by omega)
 /-- Exactness for commuting pieces (Mathlib matrix exponential): if the generators `G` of one Trotter
 step commute pairwise, the product over all leaf steps of the whole simulation — every order, every
 step count, every value of the Suzuki ratios, any involutive or other qubit bookkeeping — of the step
